@@ -171,8 +171,15 @@ func schemaStrings(g *GSchema) map[string]bool {
 		}
 		for _, e := range s.Enum {
 			walkJSON(normJSON(e), func(x any) {
-				if str, ok := x.(string); ok {
-					out[str] = true
+				switch y := x.(type) {
+				case string:
+					out[y] = true
+				case bool, float64:
+					// a reason that lists the allowed values spells booleans and numbers of the schema too:
+					// a string leaf of the value that reads the same ("true" next to the member true) is not disclosed by it
+					b, _ := json.Marshal(y)
+					out[string(b)] = true
+					out[fmt.Sprint(y)] = true
 				}
 			})
 		}
@@ -368,7 +375,7 @@ func schemaOracles(c *SCase) (compiles, matches, formats []string) {
 	c.Schema.walk(func(s *GSchema) {
 		if s.Pattern != "" && !seenP[s.Pattern] {
 			seenP[s.Pattern] = true
-			re, err := regexp.Compile(s.Pattern)
+			re, err := regexp.Compile(ecmaToGo(s.Pattern))
 			compiles = append(compiles, fmt.Sprintf("(%s, %s)", coqStr(s.Pattern), coqBool(err == nil)))
 			if err == nil {
 				done := map[string]bool{}
@@ -404,6 +411,23 @@ func schemaOracles(c *SCase) (compiles, matches, formats []string) {
 		}
 	})
 	return
+}
+
+// the documented reading of a pattern: ECMA 262 \uXXXX (four upper-case hex digits) names the code
+// point, everything else is RE2 syntax (written independently of openapi3.intoGoRegexp)
+func ecmaToGo(p string) string {
+	var b strings.Builder
+	isHex := func(c byte) bool { return (c >= '0' && c <= '9') || (c >= 'A' && c <= 'F') }
+	for i := 0; i < len(p); {
+		if p[i] == '\\' && i+5 < len(p)+0 && i+6 <= len(p) && p[i+1] == 'u' && isHex(p[i+2]) && isHex(p[i+3]) && isHex(p[i+4]) && isHex(p[i+5]) {
+			b.WriteString(`\x{` + p[i+2:i+6] + `}`)
+			i += 6
+			continue
+		}
+		b.WriteByte(p[i])
+		i++
+	}
+	return b.String()
 }
 
 func sErrsCoq(l []SErr) string {
@@ -587,10 +611,18 @@ func modesWithDefaults(seed uint64, n int, meta *Meta) {
 	kind := func(v string) *GSchema { return &GSchema{HasTypes: true, Types: []string{"string"}, Enum: []any{v}} }
 	open := &GSchema{HasTypes: true, Types: []string{"object"}, Required: []string{"kind"}, Props: map[string]*GSchema{"kind": kind("a"), "extra": {HasTypes: true, Types: []string{"integer"}, Default: 1.0}}}
 	closed := &GSchema{HasTypes: true, Types: []string{"object"}, Required: []string{"kind"}, Props: map[string]*GSchema{"kind": kind("b")}, ApHas: bp(false)}
+	open2 := &GSchema{HasTypes: true, Types: []string{"object"}, Required: []string{"kind"}, Props: map[string]*GSchema{"kind": kind("c"), "color": {HasTypes: true, Types: []string{"string"}, Default: "red"}}}
 	for _, asResp := range []bool{false, true} {
 		cases = append(cases, dcase{&GSchema{OneOf: []*GSchema{open, closed}}, `{"kind":"b"}`, asResp}, dcase{&GSchema{AnyOf: []*GSchema{open, closed}}, `{"kind":"b"}`, asResp},
 			dcase{&GSchema{OneOf: []*GSchema{closed, open}}, `{"kind":"a"}`, asResp},
-			dcase{&GSchema{HasTypes: true, Types: []string{"array"}, Items: &GSchema{OneOf: []*GSchema{open, closed}}}, `[{"kind":"b"},{"kind":"a"}]`, asResp})
+			dcase{&GSchema{HasTypes: true, Types: []string{"array"}, Items: &GSchema{OneOf: []*GSchema{open, closed}}}, `[{"kind":"b"},{"kind":"a"}]`, asResp},
+			// no branch matches: the error quotes the value as it is, not a branch's working copy with that branch's defaults
+			dcase{&GSchema{OneOf: []*GSchema{closed, open}}, `{"kind":"zzz"}`, asResp}, dcase{&GSchema{OneOf: []*GSchema{open, open2}}, `{"kind":"zzz"}`, asResp},
+			dcase{&GSchema{HasTypes: true, Types: []string{"object"}, Props: map[string]*GSchema{"shapes": {HasTypes: true, Types: []string{"array"}, Items: &GSchema{OneOf: []*GSchema{open, open2}}}}},
+				`{"shapes":[{"kind":"a"},{"kind":"triangle"}]}`, asResp},
+			dcase{&GSchema{OneOf: []*GSchema{open, closed}}, `{"kind":"zzz"}`, asResp}, dcase{&GSchema{AnyOf: []*GSchema{open, closed}}, `{"kind":"zzz"}`, asResp},
+			dcase{&GSchema{HasTypes: true, Types: []string{"object"}, Props: map[string]*GSchema{"shapes": {HasTypes: true, Types: []string{"array"}, Items: &GSchema{OneOf: []*GSchema{open, closed}}}}},
+				`{"shapes":[{"kind":"a"},{"kind":"triangle"}]}`, asResp})
 	}
 	for _, d := range c13Directed() {
 		if d.BodySchema != nil && d.Body != "" && !d.Skip {
@@ -619,10 +651,19 @@ func modesWithDefaults(seed uint64, n int, meta *Meta) {
 			opts := append([]openapi3.SchemaValidationOption{base, openapi3.DefaultsSet(func() {})}, extra...)
 			var err error
 			v := "accepted"
-			if p := catchPanic(func() { err = s.VisitJSON(deepCopyJSON(val), opts...) }); p != nil {
+			v0 := deepCopyJSON(val)
+			if p := catchPanic(func() { err = s.VisitJSON(v0, opts...) }); p != nil {
 				v = "panic"
 			} else if err != nil {
 				v = "rejected"
+				// every schema error points into the validated value (as it is after default-setting) and quotes what is there
+				for _, e := range topErrors(err) {
+					if se, ok := e.(*openapi3.SchemaError); ok && !pointerOK(v0, se) && !(se.Value == nil && strings.HasPrefix(se.Reason, "cannot compile pattern")) {
+						meta.GoViolation = append(meta.GoViolation, map[string]any{"signature": "pointer:with-defaults", "cases": []any{c},
+							"go_observation": fmt.Sprintf("field=%s pointer=/%s quoted=%v", se.SchemaField, strings.Join(se.JSONPointer(), "/"), se.Value),
+							"judgement": "with default-setting on, a schema error does not quote the value found at its pointer"})
+					}
+				}
 			}
 			verdicts = append(verdicts, v)
 		}
@@ -682,8 +723,12 @@ func schemaRunner(prop string, gopts SchemaGenOpts, rule string, post func(c *SC
 				post(c, &o, meta, i)
 			}
 		}
+		if prop == "C19" && replay == "" {
+			c19IPFormats(meta)
+		}
 		if prop == "C12" && replay == "" {
 			modesWithDefaults(seed, n/4, meta)
+			convertedPointers(meta)
 		}
 		meta.NCases = len(cases)
 		meta.Files = writeCases(outDir, "From KV Require Import Model.Base Model.Json Model.Schema Exec.SchemaExec.", "scase", "judge_"+prop, terms, meta.Shard)
@@ -782,3 +827,139 @@ const reasonWording = `value must be an integer a number a boolean a string an a
 	`property is unsupported is missing input does not contain the discriminator property value of discriminator property is not a string has invalid value ` +
 	`cannot compile pattern Not an IP address IPv4 IPv6 (it's ) string doesn't match pattern value should be between and ` +
 	`Error at Doesn't match schema doesn't match schema due to: input does not match the schema floating point NaN Inf is not allowed | Or `
+
+// C12, through the request validator's error converter (Go side): the JSON pointer ConvertErrors
+// reports for a body schema error resolves inside the body (to the enclosing object for a missing
+// required property), wherever the failing member sits relative to allOf / anyOf / oneOf wrappers.
+func convertedPointers(meta *Meta) {
+	str := &GSchema{HasTypes: true, Types: []string{"string"}}
+	named := &GSchema{HasTypes: true, Types: []string{"object"}, Required: []string{"name"}, Props: map[string]*GSchema{"name": str, "age": {HasTypes: true, Types: []string{"integer"}, Max: fp(9)}}}
+	wrap := func(kind string, s *GSchema) *GSchema {
+		switch kind {
+		case "allOf":
+			return &GSchema{AllOf: []*GSchema{s}}
+		case "anyOf":
+			return &GSchema{AnyOf: []*GSchema{s}}
+		case "oneOf":
+			return &GSchema{OneOf: []*GSchema{s}}
+		}
+		return s
+	}
+	type pc struct {
+		Schema *GSchema `json:"schema"`
+		Body   string   `json:"body"`
+	}
+	var cases []pc
+	for _, kind := range []string{"", "allOf", "anyOf", "oneOf"} {
+		inner := wrap(kind, named)
+		for _, bad := range []string{`{"name":5}`, `{"age":3}`, `{"name":"n","age":12}`} {
+			cases = append(cases,
+				pc{inner, bad},
+				pc{&GSchema{HasTypes: true, Types: []string{"object"}, Props: map[string]*GSchema{"pet": inner}}, `{"pet":` + bad + `}`},
+				pc{&GSchema{HasTypes: true, Types: []string{"object"}, Props: map[string]*GSchema{"pets": {HasTypes: true, Types: []string{"array"}, Items: inner}}}, `{"pets":[{"name":"ok"},` + bad + `]}`},
+				pc{&GSchema{HasTypes: true, Types: []string{"object"}, Props: map[string]*GSchema{"a": {HasTypes: true, Types: []string{"object"}, Props: map[string]*GSchema{"b": {HasTypes: true, Types: []string{"array"}, Items: inner}}}}}, `{"a":{"b":[` + bad + `]}}`})
+		}
+	}
+	for _, c := range cases {
+		for _, multi := range []bool{false, true} {
+			op := openapi3.NewOperation()
+			op.RequestBody = &openapi3.RequestBodyRef{Value: openapi3.NewRequestBody().WithJSONSchema(c.Schema.ToOpenAPI())}
+			op.Responses = openapi3.NewResponses()
+			item := &openapi3.PathItem{Post: op}
+			doc := &openapi3.T{OpenAPI: "3.0.0", Info: &openapi3.Info{Title: "t", Version: "1"}, Paths: openapi3.NewPaths()}
+			route := &routers.Route{Spec: doc, Path: "/b", PathItem: item, Method: "POST", Operation: op}
+			req := httptest.NewRequest("POST", "/b", strings.NewReader(c.Body))
+			req.Header.Set("Content-Type", "application/json")
+			var err error
+			if p := catchPanic(func() {
+				err = openapi3filter.ValidateRequest(context.Background(), &openapi3filter.RequestValidationInput{Request: req, Route: route, Options: &openapi3filter.Options{MultiError: multi, SkipSettingDefaults: true}})
+			}); p != nil || err == nil {
+				continue
+			}
+			var body any
+			_ = json.Unmarshal([]byte(c.Body), &body)
+			var errs []error
+			if me, ok := err.(openapi3.MultiError); ok {
+				errs = me
+			} else {
+				errs = []error{err}
+			}
+			for _, e := range errs {
+				var conv error
+				if p := catchPanic(func() { conv = openapi3filter.ConvertErrors(e) }); p != nil {
+					continue
+				}
+				var ve *openapi3filter.ValidationError
+				if !errors.As(conv, &ve) || ve.Source == nil || ve.Source.Pointer == "" {
+					continue
+				}
+				meta.Histogram["converted pointers"]++
+				toks := strings.Split(strings.TrimPrefix(ve.Source.Pointer, "/"), "/")
+				if _, ok := jsonLookup(body, toks); !ok {
+					// the pointer of a missing required property names the property: its parent must exist
+					if _, ok2 := jsonLookup(body, toks[:len(toks)-1]); ok2 && strings.Contains(ve.Title, "missing") {
+						continue
+					}
+					meta.GoViolation = append(meta.GoViolation, map[string]any{"signature": "pointer:converted-error-does-not-resolve", "cases": []any{map[string]any{"schema": c.Schema, "body": c.Body, "multi_error": multi}},
+						"go_observation": fmt.Sprintf("pointer %s, title %q", ve.Source.Pointer, ve.Title), "judgement": "the pointer ConvertErrors reports does not resolve inside the request body"})
+				}
+			}
+		}
+	}
+}
+
+// C19, the opt-in IP formats (Go side): a rejected string that is a well-formed address of the other
+// family is still a value of the request - no reason, at any level, and no message assembled from
+// reasons may repeat it
+func c19IPFormats(meta *Meta) {
+	openapi3.DefineIPv4Format()
+	openapi3.DefineIPv6Format()
+	defer func() {
+		delete(openapi3.SchemaStringFormats, "ipv4")
+		delete(openapi3.SchemaStringFormats, "ipv6")
+	}()
+	for _, format := range []string{"ipv4", "ipv6"} {
+		for _, v := range []string{"2001:db8::c19:9", "198.51.100.199", "::ffff:198.51.100.7", "2001:0db8:0000:0000:0000:0000:0c19:0009", "fe80::c19%eth0", "198.51.100.256", "1.2.3"} {
+			for _, nest := range []string{"", "property", "item"} {
+				s := openapi3.NewStringSchema().WithFormat(format)
+				var val any = v
+				switch nest {
+				case "property":
+					s = openapi3.NewObjectSchema().WithProperty("addr", s)
+					val = map[string]any{"addr": v}
+				case "item":
+					s = openapi3.NewArraySchema().WithItems(s)
+					val = []any{v}
+				}
+				for _, multi := range []bool{false, true} {
+					opts := []openapi3.SchemaValidationOption{openapi3.EnableFormatValidation()}
+					if multi {
+						opts = append(opts, openapi3.MultiErrors())
+					}
+					var err error
+					if p := catchPanic(func() { err = s.VisitJSON(val, opts...) }); p != nil || err == nil {
+						continue
+					}
+					meta.Histogram["ip format rejections"]++
+					var reasons []string
+					allReasons(err, &reasons, 0)
+					// the message with details disabled (the flag must be set before validating: wrapped causes are formatted eagerly)
+					openapi3.SchemaErrorDetailsDisabled = true
+					var text string
+					var err2 error
+					if p := catchPanic(func() { err2 = s.VisitJSON(val, opts...) }); p == nil && err2 != nil {
+						catchPanic(func() { text = err2.Error() })
+					}
+					openapi3.SchemaErrorDetailsDisabled = false
+					for _, r := range append(reasons, text) {
+						if strings.Contains(r, v) {
+							meta.GoViolation = append(meta.GoViolation, map[string]any{"signature": "leak", "cases": []any{map[string]any{"format": format, "value": val, "multi_error": multi}},
+								"go_observation": r, "judgement": "a reason (or the message with details disabled) repeats the rejected address: " + r})
+							break
+						}
+					}
+				}
+			}
+		}
+	}
+}
